@@ -63,7 +63,8 @@ func c08Run(c *fw.Ctx) {
 			c08Placement{Name: "body-wrong-then-right", Body: []string{sb, sg}, OK: true})
 	}
 	future, past := harness.At(time.Hour), harness.At(-time.Minute)
-	secretStrings := []string{"session-access-token-SECRET", "session-refresh-token-SECRET", "Vip.User@Corp.test", "new-access-token-SECRET"}
+	// (with percent signs: what percent-encoded opaque tokens and "percent hack" addresses look like)
+	secretStrings := []string{"session-access%2Btoken-%s-SECRET", "session-refresh-token-100%-SECRET", "Vip.User%sales@Corp.test", "new-access-token-SECRET"}
 	mk := func(refresh, lifetime time.Time) *sessions.SessionState {
 		return &sessions.SessionState{ProviderSlug: e.Slug, AccessToken: secretStrings[0], RefreshToken: secretStrings[1], Email: secretStrings[2], User: "vip.user",
 			RefreshDeadline: refresh, LifetimeDeadline: lifetime, ValidDeadline: future}
@@ -260,7 +261,7 @@ func c08Run(c *fw.Ctx) {
 // acts only for a caller presenting exactly the secret the loaded configuration holds; a caller that
 // presents nothing, empty strings, or a piece of the configured value is refused.
 func c08Unconfigured(c *fw.Ctx) {
-	configured := []string{"(unset)", "s3cret-new-0123456789,", ",s3cret-old-0123456789", "s3cret-new-0123456789, ,s3cret-old-0123456789", "s3cret-new-0123456789,s3cret-old-0123456789", " s3cret-padded-0123456789 ", "s3cret with spaces 0123456789", "s3cret-new-0123456789;s3cret-old-0123456789",
+	configured := []string{"(unset)", "(id set, secret unset)", "s3cret-new-0123456789,", ",s3cret-old-0123456789", "s3cret-new-0123456789, ,s3cret-old-0123456789", "s3cret-new-0123456789,s3cret-old-0123456789", " s3cret-padded-0123456789 ", "s3cret with spaces 0123456789", "s3cret-new-0123456789;s3cret-old-0123456789",
 		// (what a standard-base64 secret looks like)
 		"s3cret+with/plus+and=pad0123456789=="}
 	drive(c, "unconfigured-proxy-client", -1, func(x *explore.Exec, owned bool) {
@@ -269,7 +270,7 @@ func c08Unconfigured(c *fw.Ctx) {
 		// what the caller presents as its secret: nothing, empty strings, or piece k of the configured value
 		// (split at commas, semicolons and blanks; then the whole value trimmed; then the whole value)
 		var pieces []string
-		if conf != "(unset)" {
+		if conf != "(unset)" && conf != "(id set, secret unset)" {
 			for _, f := range strings.FieldsFunc(conf, func(r rune) bool { return r == ',' || r == ';' || r == ' ' }) {
 				pieces = append(pieces, f)
 			}
@@ -291,6 +292,8 @@ func c08Unconfigured(c *fw.Ctx) {
 		opts := harness.AuthOpts{EmailDomains: []string{"corp.test"}, RootDomains: []string{"sso.test"}}
 		if conf == "(unset)" {
 			opts.NoProxyClient = true
+		} else if conf == "(id set, secret unset)" {
+			opts.NoProxySecret = true
 		} else {
 			opts.ProxySecret = conf
 		}
